@@ -1,7 +1,7 @@
 #!/bin/bash
 # Re-evaluate every seeded change under /verif/seeded with the given seeds; writes eval.json and meta.json.
 SEEDS="${1:-1,2}"
-for d in /verif/seeded/*/; do
+for d in /verif/seeded/${FILTER:-*}/; do
   id=$(basename "$d"); P=${id%%-*}
   checks="$P"
   [ "$id" = "C19-m3" ] && checks="C19,C20"; [ "$id" = "C19-w2m1" ] && checks="C19,C20"; [ "$id" = "C05-w2m1" ] && checks="C05,C01"; [ "$id" = "C09-w3m3" ] && checks="C09,C16"
